@@ -262,6 +262,515 @@ pub proof fn step_refines(l: LoaderV, inst: dr::Instruction)
 """
 
 
+C01_LEMMAS = r"""
+// ---- C01: nothing dropped, duplicated or invented; order inside every section preserved -----------
+use vstd::multiset::Multiset;
+// multiset of all instructions held by a loader state (module sections, finished functions, open function, open block)
+pub open spec fn ms_opt(o: Option<dr::Instruction>) -> Multiset<dr::Instruction> {
+    match o { Some(i) => Multiset::singleton(i), None => Multiset::empty() }
+}
+pub open spec fn ms_block(b: dr::BlockV) -> Multiset<dr::Instruction> { ms_opt(b.label).add(b.instructions.to_multiset()) }
+pub open spec fn ms_blocks(bs: Seq<dr::BlockV>) -> Multiset<dr::Instruction>
+    decreases bs.len(),
+{
+    if bs.len() == 0 { Multiset::empty() } else { ms_blocks(bs.drop_last()).add(ms_block(bs.last())) }
+}
+pub open spec fn ms_function(f: dr::FunctionV) -> Multiset<dr::Instruction> {
+    ms_opt(f.def).add(f.parameters.to_multiset()).add(ms_blocks(f.blocks)).add(ms_opt(f.end))
+}
+pub open spec fn ms_functions(fs: Seq<dr::FunctionV>) -> Multiset<dr::Instruction>
+    decreases fs.len(),
+{
+    if fs.len() == 0 { Multiset::empty() } else { ms_functions(fs.drop_last()).add(ms_function(fs.last())) }
+}
+pub open spec fn ms_module(m: dr::ModuleV) -> Multiset<dr::Instruction> {
+    m.capabilities.to_multiset().add(m.extensions.to_multiset()).add(m.ext_inst_imports.to_multiset()).add(ms_opt(m.memory_model))
+        .add(m.entry_points.to_multiset()).add(m.execution_modes.to_multiset()).add(m.debug_string_source.to_multiset())
+        .add(m.debug_names.to_multiset()).add(m.debug_module_processed.to_multiset()).add(m.annotations.to_multiset())
+        .add(m.types_global_values.to_multiset()).add(ms_functions(m.functions))
+}
+pub open spec fn ms_loader(l: LoaderV) -> Multiset<dr::Instruction> {
+    ms_module(l.module)
+        .add(match l.function { Some(f) => ms_function(f), None => Multiset::empty() })
+        .add(match l.block { Some(b) => ms_block(b), None => Multiset::empty() })
+}
+pub proof fn ms_push(s: Seq<dr::Instruction>, i: dr::Instruction)
+    ensures s.push(i).to_multiset() =~= s.to_multiset().insert(i),
+{ s.to_multiset_ensures(); }
+pub proof fn ms_blocks_push(bs: Seq<dr::BlockV>, b: dr::BlockV)
+    ensures ms_blocks(bs.push(b)) =~= ms_blocks(bs).add(ms_block(b)),
+{ assert(bs.push(b).drop_last() =~= bs); }
+pub proof fn ms_functions_push(fs: Seq<dr::FunctionV>, f: dr::FunctionV)
+    ensures ms_functions(fs.push(f)) =~= ms_functions(fs).add(ms_function(f)),
+{ assert(fs.push(f).drop_last() =~= fs); }
+// one accepted step adds exactly the consumed instruction to the loader's holdings (a second OpMemoryModel
+// would replace the first: excluded, as in the statement of C01); one lemma per instruction kind
+pub proof fn step_adds_Capability(l: LoaderV, inst: dr::Instruction)
+    requires wf_v(l), step_spec(l, inst).1 is Continue, kind_of(inst.class.opcode) is Capability,
+        kind_of(inst.class.opcode) is MemoryModel ==> l.module.memory_model is None,
+    ensures ms_loader(step_spec(l, inst).0) =~= ms_loader(l).insert(inst),
+{
+    let l2 = step_spec(l, inst).0;
+    let m = l.module;
+    ms_push(m.capabilities, inst); ms_push(m.extensions, inst); ms_push(m.ext_inst_imports, inst);
+    ms_push(m.entry_points, inst); ms_push(m.execution_modes, inst); ms_push(m.debug_string_source, inst);
+    ms_push(m.debug_names, inst); ms_push(m.debug_module_processed, inst); ms_push(m.annotations, inst);
+    ms_push(m.types_global_values, inst);
+    if l.block is Some { ms_push((l.block->0).instructions, inst); }
+    if l.function is Some {
+        ms_push((l.function->0).parameters, inst);
+        if l.block is Some { ms_blocks_push((l.function->0).blocks, push_block(l, inst).block->0); }
+        ms_functions_push(m.functions, dr::FunctionV { end: Some(inst), ..l.function->0 });
+    }
+    Seq::<dr::Instruction>::empty().to_multiset_ensures();
+    assert(Seq::<dr::Instruction>::empty().to_multiset() =~= Multiset::empty());
+    assert(ms_blocks(Seq::<dr::BlockV>::empty()) =~= Multiset::empty());
+}
+pub proof fn step_adds_Extension(l: LoaderV, inst: dr::Instruction)
+    requires wf_v(l), step_spec(l, inst).1 is Continue, kind_of(inst.class.opcode) is Extension,
+        kind_of(inst.class.opcode) is MemoryModel ==> l.module.memory_model is None,
+    ensures ms_loader(step_spec(l, inst).0) =~= ms_loader(l).insert(inst),
+{
+    let l2 = step_spec(l, inst).0;
+    let m = l.module;
+    ms_push(m.capabilities, inst); ms_push(m.extensions, inst); ms_push(m.ext_inst_imports, inst);
+    ms_push(m.entry_points, inst); ms_push(m.execution_modes, inst); ms_push(m.debug_string_source, inst);
+    ms_push(m.debug_names, inst); ms_push(m.debug_module_processed, inst); ms_push(m.annotations, inst);
+    ms_push(m.types_global_values, inst);
+    if l.block is Some { ms_push((l.block->0).instructions, inst); }
+    if l.function is Some {
+        ms_push((l.function->0).parameters, inst);
+        if l.block is Some { ms_blocks_push((l.function->0).blocks, push_block(l, inst).block->0); }
+        ms_functions_push(m.functions, dr::FunctionV { end: Some(inst), ..l.function->0 });
+    }
+    Seq::<dr::Instruction>::empty().to_multiset_ensures();
+    assert(Seq::<dr::Instruction>::empty().to_multiset() =~= Multiset::empty());
+    assert(ms_blocks(Seq::<dr::BlockV>::empty()) =~= Multiset::empty());
+}
+pub proof fn step_adds_ExtInstImport(l: LoaderV, inst: dr::Instruction)
+    requires wf_v(l), step_spec(l, inst).1 is Continue, kind_of(inst.class.opcode) is ExtInstImport,
+        kind_of(inst.class.opcode) is MemoryModel ==> l.module.memory_model is None,
+    ensures ms_loader(step_spec(l, inst).0) =~= ms_loader(l).insert(inst),
+{
+    let l2 = step_spec(l, inst).0;
+    let m = l.module;
+    ms_push(m.capabilities, inst); ms_push(m.extensions, inst); ms_push(m.ext_inst_imports, inst);
+    ms_push(m.entry_points, inst); ms_push(m.execution_modes, inst); ms_push(m.debug_string_source, inst);
+    ms_push(m.debug_names, inst); ms_push(m.debug_module_processed, inst); ms_push(m.annotations, inst);
+    ms_push(m.types_global_values, inst);
+    if l.block is Some { ms_push((l.block->0).instructions, inst); }
+    if l.function is Some {
+        ms_push((l.function->0).parameters, inst);
+        if l.block is Some { ms_blocks_push((l.function->0).blocks, push_block(l, inst).block->0); }
+        ms_functions_push(m.functions, dr::FunctionV { end: Some(inst), ..l.function->0 });
+    }
+    Seq::<dr::Instruction>::empty().to_multiset_ensures();
+    assert(Seq::<dr::Instruction>::empty().to_multiset() =~= Multiset::empty());
+    assert(ms_blocks(Seq::<dr::BlockV>::empty()) =~= Multiset::empty());
+}
+pub proof fn step_adds_MemoryModel(l: LoaderV, inst: dr::Instruction)
+    requires wf_v(l), step_spec(l, inst).1 is Continue, kind_of(inst.class.opcode) is MemoryModel,
+        kind_of(inst.class.opcode) is MemoryModel ==> l.module.memory_model is None,
+    ensures ms_loader(step_spec(l, inst).0) =~= ms_loader(l).insert(inst),
+{
+    let l2 = step_spec(l, inst).0;
+    let m = l.module;
+    ms_push(m.capabilities, inst); ms_push(m.extensions, inst); ms_push(m.ext_inst_imports, inst);
+    ms_push(m.entry_points, inst); ms_push(m.execution_modes, inst); ms_push(m.debug_string_source, inst);
+    ms_push(m.debug_names, inst); ms_push(m.debug_module_processed, inst); ms_push(m.annotations, inst);
+    ms_push(m.types_global_values, inst);
+    if l.block is Some { ms_push((l.block->0).instructions, inst); }
+    if l.function is Some {
+        ms_push((l.function->0).parameters, inst);
+        if l.block is Some { ms_blocks_push((l.function->0).blocks, push_block(l, inst).block->0); }
+        ms_functions_push(m.functions, dr::FunctionV { end: Some(inst), ..l.function->0 });
+    }
+    Seq::<dr::Instruction>::empty().to_multiset_ensures();
+    assert(Seq::<dr::Instruction>::empty().to_multiset() =~= Multiset::empty());
+    assert(ms_blocks(Seq::<dr::BlockV>::empty()) =~= Multiset::empty());
+}
+pub proof fn step_adds_EntryPoint(l: LoaderV, inst: dr::Instruction)
+    requires wf_v(l), step_spec(l, inst).1 is Continue, kind_of(inst.class.opcode) is EntryPoint,
+        kind_of(inst.class.opcode) is MemoryModel ==> l.module.memory_model is None,
+    ensures ms_loader(step_spec(l, inst).0) =~= ms_loader(l).insert(inst),
+{
+    let l2 = step_spec(l, inst).0;
+    let m = l.module;
+    ms_push(m.capabilities, inst); ms_push(m.extensions, inst); ms_push(m.ext_inst_imports, inst);
+    ms_push(m.entry_points, inst); ms_push(m.execution_modes, inst); ms_push(m.debug_string_source, inst);
+    ms_push(m.debug_names, inst); ms_push(m.debug_module_processed, inst); ms_push(m.annotations, inst);
+    ms_push(m.types_global_values, inst);
+    if l.block is Some { ms_push((l.block->0).instructions, inst); }
+    if l.function is Some {
+        ms_push((l.function->0).parameters, inst);
+        if l.block is Some { ms_blocks_push((l.function->0).blocks, push_block(l, inst).block->0); }
+        ms_functions_push(m.functions, dr::FunctionV { end: Some(inst), ..l.function->0 });
+    }
+    Seq::<dr::Instruction>::empty().to_multiset_ensures();
+    assert(Seq::<dr::Instruction>::empty().to_multiset() =~= Multiset::empty());
+    assert(ms_blocks(Seq::<dr::BlockV>::empty()) =~= Multiset::empty());
+}
+pub proof fn step_adds_ExecutionMode(l: LoaderV, inst: dr::Instruction)
+    requires wf_v(l), step_spec(l, inst).1 is Continue, kind_of(inst.class.opcode) is ExecutionMode,
+        kind_of(inst.class.opcode) is MemoryModel ==> l.module.memory_model is None,
+    ensures ms_loader(step_spec(l, inst).0) =~= ms_loader(l).insert(inst),
+{
+    let l2 = step_spec(l, inst).0;
+    let m = l.module;
+    ms_push(m.capabilities, inst); ms_push(m.extensions, inst); ms_push(m.ext_inst_imports, inst);
+    ms_push(m.entry_points, inst); ms_push(m.execution_modes, inst); ms_push(m.debug_string_source, inst);
+    ms_push(m.debug_names, inst); ms_push(m.debug_module_processed, inst); ms_push(m.annotations, inst);
+    ms_push(m.types_global_values, inst);
+    if l.block is Some { ms_push((l.block->0).instructions, inst); }
+    if l.function is Some {
+        ms_push((l.function->0).parameters, inst);
+        if l.block is Some { ms_blocks_push((l.function->0).blocks, push_block(l, inst).block->0); }
+        ms_functions_push(m.functions, dr::FunctionV { end: Some(inst), ..l.function->0 });
+    }
+    Seq::<dr::Instruction>::empty().to_multiset_ensures();
+    assert(Seq::<dr::Instruction>::empty().to_multiset() =~= Multiset::empty());
+    assert(ms_blocks(Seq::<dr::BlockV>::empty()) =~= Multiset::empty());
+}
+pub proof fn step_adds_DebugStringSource(l: LoaderV, inst: dr::Instruction)
+    requires wf_v(l), step_spec(l, inst).1 is Continue, kind_of(inst.class.opcode) is DebugStringSource,
+        kind_of(inst.class.opcode) is MemoryModel ==> l.module.memory_model is None,
+    ensures ms_loader(step_spec(l, inst).0) =~= ms_loader(l).insert(inst),
+{
+    let l2 = step_spec(l, inst).0;
+    let m = l.module;
+    ms_push(m.capabilities, inst); ms_push(m.extensions, inst); ms_push(m.ext_inst_imports, inst);
+    ms_push(m.entry_points, inst); ms_push(m.execution_modes, inst); ms_push(m.debug_string_source, inst);
+    ms_push(m.debug_names, inst); ms_push(m.debug_module_processed, inst); ms_push(m.annotations, inst);
+    ms_push(m.types_global_values, inst);
+    if l.block is Some { ms_push((l.block->0).instructions, inst); }
+    if l.function is Some {
+        ms_push((l.function->0).parameters, inst);
+        if l.block is Some { ms_blocks_push((l.function->0).blocks, push_block(l, inst).block->0); }
+        ms_functions_push(m.functions, dr::FunctionV { end: Some(inst), ..l.function->0 });
+    }
+    Seq::<dr::Instruction>::empty().to_multiset_ensures();
+    assert(Seq::<dr::Instruction>::empty().to_multiset() =~= Multiset::empty());
+    assert(ms_blocks(Seq::<dr::BlockV>::empty()) =~= Multiset::empty());
+}
+pub proof fn step_adds_DebugName(l: LoaderV, inst: dr::Instruction)
+    requires wf_v(l), step_spec(l, inst).1 is Continue, kind_of(inst.class.opcode) is DebugName,
+        kind_of(inst.class.opcode) is MemoryModel ==> l.module.memory_model is None,
+    ensures ms_loader(step_spec(l, inst).0) =~= ms_loader(l).insert(inst),
+{
+    let l2 = step_spec(l, inst).0;
+    let m = l.module;
+    ms_push(m.capabilities, inst); ms_push(m.extensions, inst); ms_push(m.ext_inst_imports, inst);
+    ms_push(m.entry_points, inst); ms_push(m.execution_modes, inst); ms_push(m.debug_string_source, inst);
+    ms_push(m.debug_names, inst); ms_push(m.debug_module_processed, inst); ms_push(m.annotations, inst);
+    ms_push(m.types_global_values, inst);
+    if l.block is Some { ms_push((l.block->0).instructions, inst); }
+    if l.function is Some {
+        ms_push((l.function->0).parameters, inst);
+        if l.block is Some { ms_blocks_push((l.function->0).blocks, push_block(l, inst).block->0); }
+        ms_functions_push(m.functions, dr::FunctionV { end: Some(inst), ..l.function->0 });
+    }
+    Seq::<dr::Instruction>::empty().to_multiset_ensures();
+    assert(Seq::<dr::Instruction>::empty().to_multiset() =~= Multiset::empty());
+    assert(ms_blocks(Seq::<dr::BlockV>::empty()) =~= Multiset::empty());
+}
+pub proof fn step_adds_ModuleProcessed(l: LoaderV, inst: dr::Instruction)
+    requires wf_v(l), step_spec(l, inst).1 is Continue, kind_of(inst.class.opcode) is ModuleProcessed,
+        kind_of(inst.class.opcode) is MemoryModel ==> l.module.memory_model is None,
+    ensures ms_loader(step_spec(l, inst).0) =~= ms_loader(l).insert(inst),
+{
+    let l2 = step_spec(l, inst).0;
+    let m = l.module;
+    ms_push(m.capabilities, inst); ms_push(m.extensions, inst); ms_push(m.ext_inst_imports, inst);
+    ms_push(m.entry_points, inst); ms_push(m.execution_modes, inst); ms_push(m.debug_string_source, inst);
+    ms_push(m.debug_names, inst); ms_push(m.debug_module_processed, inst); ms_push(m.annotations, inst);
+    ms_push(m.types_global_values, inst);
+    if l.block is Some { ms_push((l.block->0).instructions, inst); }
+    if l.function is Some {
+        ms_push((l.function->0).parameters, inst);
+        if l.block is Some { ms_blocks_push((l.function->0).blocks, push_block(l, inst).block->0); }
+        ms_functions_push(m.functions, dr::FunctionV { end: Some(inst), ..l.function->0 });
+    }
+    Seq::<dr::Instruction>::empty().to_multiset_ensures();
+    assert(Seq::<dr::Instruction>::empty().to_multiset() =~= Multiset::empty());
+    assert(ms_blocks(Seq::<dr::BlockV>::empty()) =~= Multiset::empty());
+}
+pub proof fn step_adds_LocDebug(l: LoaderV, inst: dr::Instruction)
+    requires wf_v(l), step_spec(l, inst).1 is Continue, kind_of(inst.class.opcode) is LocDebug,
+        kind_of(inst.class.opcode) is MemoryModel ==> l.module.memory_model is None,
+    ensures ms_loader(step_spec(l, inst).0) =~= ms_loader(l).insert(inst),
+{
+    let l2 = step_spec(l, inst).0;
+    let m = l.module;
+    ms_push(m.capabilities, inst); ms_push(m.extensions, inst); ms_push(m.ext_inst_imports, inst);
+    ms_push(m.entry_points, inst); ms_push(m.execution_modes, inst); ms_push(m.debug_string_source, inst);
+    ms_push(m.debug_names, inst); ms_push(m.debug_module_processed, inst); ms_push(m.annotations, inst);
+    ms_push(m.types_global_values, inst);
+    if l.block is Some { ms_push((l.block->0).instructions, inst); }
+    if l.function is Some {
+        ms_push((l.function->0).parameters, inst);
+        if l.block is Some { ms_blocks_push((l.function->0).blocks, push_block(l, inst).block->0); }
+        ms_functions_push(m.functions, dr::FunctionV { end: Some(inst), ..l.function->0 });
+    }
+    Seq::<dr::Instruction>::empty().to_multiset_ensures();
+    assert(Seq::<dr::Instruction>::empty().to_multiset() =~= Multiset::empty());
+    assert(ms_blocks(Seq::<dr::BlockV>::empty()) =~= Multiset::empty());
+}
+pub proof fn step_adds_Annotation(l: LoaderV, inst: dr::Instruction)
+    requires wf_v(l), step_spec(l, inst).1 is Continue, kind_of(inst.class.opcode) is Annotation,
+        kind_of(inst.class.opcode) is MemoryModel ==> l.module.memory_model is None,
+    ensures ms_loader(step_spec(l, inst).0) =~= ms_loader(l).insert(inst),
+{
+    let l2 = step_spec(l, inst).0;
+    let m = l.module;
+    ms_push(m.capabilities, inst); ms_push(m.extensions, inst); ms_push(m.ext_inst_imports, inst);
+    ms_push(m.entry_points, inst); ms_push(m.execution_modes, inst); ms_push(m.debug_string_source, inst);
+    ms_push(m.debug_names, inst); ms_push(m.debug_module_processed, inst); ms_push(m.annotations, inst);
+    ms_push(m.types_global_values, inst);
+    if l.block is Some { ms_push((l.block->0).instructions, inst); }
+    if l.function is Some {
+        ms_push((l.function->0).parameters, inst);
+        if l.block is Some { ms_blocks_push((l.function->0).blocks, push_block(l, inst).block->0); }
+        ms_functions_push(m.functions, dr::FunctionV { end: Some(inst), ..l.function->0 });
+    }
+    Seq::<dr::Instruction>::empty().to_multiset_ensures();
+    assert(Seq::<dr::Instruction>::empty().to_multiset() =~= Multiset::empty());
+    assert(ms_blocks(Seq::<dr::BlockV>::empty()) =~= Multiset::empty());
+}
+pub proof fn step_adds_TypeOrConst(l: LoaderV, inst: dr::Instruction)
+    requires wf_v(l), step_spec(l, inst).1 is Continue, kind_of(inst.class.opcode) is TypeOrConst,
+        kind_of(inst.class.opcode) is MemoryModel ==> l.module.memory_model is None,
+    ensures ms_loader(step_spec(l, inst).0) =~= ms_loader(l).insert(inst),
+{
+    let l2 = step_spec(l, inst).0;
+    let m = l.module;
+    ms_push(m.capabilities, inst); ms_push(m.extensions, inst); ms_push(m.ext_inst_imports, inst);
+    ms_push(m.entry_points, inst); ms_push(m.execution_modes, inst); ms_push(m.debug_string_source, inst);
+    ms_push(m.debug_names, inst); ms_push(m.debug_module_processed, inst); ms_push(m.annotations, inst);
+    ms_push(m.types_global_values, inst);
+    if l.block is Some { ms_push((l.block->0).instructions, inst); }
+    if l.function is Some {
+        ms_push((l.function->0).parameters, inst);
+        if l.block is Some { ms_blocks_push((l.function->0).blocks, push_block(l, inst).block->0); }
+        ms_functions_push(m.functions, dr::FunctionV { end: Some(inst), ..l.function->0 });
+    }
+    Seq::<dr::Instruction>::empty().to_multiset_ensures();
+    assert(Seq::<dr::Instruction>::empty().to_multiset() =~= Multiset::empty());
+    assert(ms_blocks(Seq::<dr::BlockV>::empty()) =~= Multiset::empty());
+}
+pub proof fn step_adds_Variable(l: LoaderV, inst: dr::Instruction)
+    requires wf_v(l), step_spec(l, inst).1 is Continue, kind_of(inst.class.opcode) is Variable,
+        kind_of(inst.class.opcode) is MemoryModel ==> l.module.memory_model is None,
+    ensures ms_loader(step_spec(l, inst).0) =~= ms_loader(l).insert(inst),
+{
+    let l2 = step_spec(l, inst).0;
+    let m = l.module;
+    ms_push(m.capabilities, inst); ms_push(m.extensions, inst); ms_push(m.ext_inst_imports, inst);
+    ms_push(m.entry_points, inst); ms_push(m.execution_modes, inst); ms_push(m.debug_string_source, inst);
+    ms_push(m.debug_names, inst); ms_push(m.debug_module_processed, inst); ms_push(m.annotations, inst);
+    ms_push(m.types_global_values, inst);
+    if l.block is Some { ms_push((l.block->0).instructions, inst); }
+    if l.function is Some {
+        ms_push((l.function->0).parameters, inst);
+        if l.block is Some { ms_blocks_push((l.function->0).blocks, push_block(l, inst).block->0); }
+        ms_functions_push(m.functions, dr::FunctionV { end: Some(inst), ..l.function->0 });
+    }
+    Seq::<dr::Instruction>::empty().to_multiset_ensures();
+    assert(Seq::<dr::Instruction>::empty().to_multiset() =~= Multiset::empty());
+    assert(ms_blocks(Seq::<dr::BlockV>::empty()) =~= Multiset::empty());
+}
+pub proof fn step_adds_Undef(l: LoaderV, inst: dr::Instruction)
+    requires wf_v(l), step_spec(l, inst).1 is Continue, kind_of(inst.class.opcode) is Undef,
+        kind_of(inst.class.opcode) is MemoryModel ==> l.module.memory_model is None,
+    ensures ms_loader(step_spec(l, inst).0) =~= ms_loader(l).insert(inst),
+{
+    let l2 = step_spec(l, inst).0;
+    let m = l.module;
+    ms_push(m.capabilities, inst); ms_push(m.extensions, inst); ms_push(m.ext_inst_imports, inst);
+    ms_push(m.entry_points, inst); ms_push(m.execution_modes, inst); ms_push(m.debug_string_source, inst);
+    ms_push(m.debug_names, inst); ms_push(m.debug_module_processed, inst); ms_push(m.annotations, inst);
+    ms_push(m.types_global_values, inst);
+    if l.block is Some { ms_push((l.block->0).instructions, inst); }
+    if l.function is Some {
+        ms_push((l.function->0).parameters, inst);
+        if l.block is Some { ms_blocks_push((l.function->0).blocks, push_block(l, inst).block->0); }
+        ms_functions_push(m.functions, dr::FunctionV { end: Some(inst), ..l.function->0 });
+    }
+    Seq::<dr::Instruction>::empty().to_multiset_ensures();
+    assert(Seq::<dr::Instruction>::empty().to_multiset() =~= Multiset::empty());
+    assert(ms_blocks(Seq::<dr::BlockV>::empty()) =~= Multiset::empty());
+}
+pub proof fn step_adds_Function(l: LoaderV, inst: dr::Instruction)
+    requires wf_v(l), step_spec(l, inst).1 is Continue, kind_of(inst.class.opcode) is Function,
+        kind_of(inst.class.opcode) is MemoryModel ==> l.module.memory_model is None,
+    ensures ms_loader(step_spec(l, inst).0) =~= ms_loader(l).insert(inst),
+{
+    let l2 = step_spec(l, inst).0;
+    let m = l.module;
+    ms_push(m.capabilities, inst); ms_push(m.extensions, inst); ms_push(m.ext_inst_imports, inst);
+    ms_push(m.entry_points, inst); ms_push(m.execution_modes, inst); ms_push(m.debug_string_source, inst);
+    ms_push(m.debug_names, inst); ms_push(m.debug_module_processed, inst); ms_push(m.annotations, inst);
+    ms_push(m.types_global_values, inst);
+    if l.block is Some { ms_push((l.block->0).instructions, inst); }
+    if l.function is Some {
+        ms_push((l.function->0).parameters, inst);
+        if l.block is Some { ms_blocks_push((l.function->0).blocks, push_block(l, inst).block->0); }
+        ms_functions_push(m.functions, dr::FunctionV { end: Some(inst), ..l.function->0 });
+    }
+    Seq::<dr::Instruction>::empty().to_multiset_ensures();
+    assert(Seq::<dr::Instruction>::empty().to_multiset() =~= Multiset::empty());
+    assert(ms_blocks(Seq::<dr::BlockV>::empty()) =~= Multiset::empty());
+}
+pub proof fn step_adds_FunctionEnd(l: LoaderV, inst: dr::Instruction)
+    requires wf_v(l), step_spec(l, inst).1 is Continue, kind_of(inst.class.opcode) is FunctionEnd,
+        kind_of(inst.class.opcode) is MemoryModel ==> l.module.memory_model is None,
+    ensures ms_loader(step_spec(l, inst).0) =~= ms_loader(l).insert(inst),
+{
+    let l2 = step_spec(l, inst).0;
+    let m = l.module;
+    ms_push(m.capabilities, inst); ms_push(m.extensions, inst); ms_push(m.ext_inst_imports, inst);
+    ms_push(m.entry_points, inst); ms_push(m.execution_modes, inst); ms_push(m.debug_string_source, inst);
+    ms_push(m.debug_names, inst); ms_push(m.debug_module_processed, inst); ms_push(m.annotations, inst);
+    ms_push(m.types_global_values, inst);
+    if l.block is Some { ms_push((l.block->0).instructions, inst); }
+    if l.function is Some {
+        ms_push((l.function->0).parameters, inst);
+        if l.block is Some { ms_blocks_push((l.function->0).blocks, push_block(l, inst).block->0); }
+        ms_functions_push(m.functions, dr::FunctionV { end: Some(inst), ..l.function->0 });
+    }
+    Seq::<dr::Instruction>::empty().to_multiset_ensures();
+    assert(Seq::<dr::Instruction>::empty().to_multiset() =~= Multiset::empty());
+    assert(ms_blocks(Seq::<dr::BlockV>::empty()) =~= Multiset::empty());
+}
+pub proof fn step_adds_FunctionParameter(l: LoaderV, inst: dr::Instruction)
+    requires wf_v(l), step_spec(l, inst).1 is Continue, kind_of(inst.class.opcode) is FunctionParameter,
+        kind_of(inst.class.opcode) is MemoryModel ==> l.module.memory_model is None,
+    ensures ms_loader(step_spec(l, inst).0) =~= ms_loader(l).insert(inst),
+{
+    let l2 = step_spec(l, inst).0;
+    let m = l.module;
+    ms_push(m.capabilities, inst); ms_push(m.extensions, inst); ms_push(m.ext_inst_imports, inst);
+    ms_push(m.entry_points, inst); ms_push(m.execution_modes, inst); ms_push(m.debug_string_source, inst);
+    ms_push(m.debug_names, inst); ms_push(m.debug_module_processed, inst); ms_push(m.annotations, inst);
+    ms_push(m.types_global_values, inst);
+    if l.block is Some { ms_push((l.block->0).instructions, inst); }
+    if l.function is Some {
+        ms_push((l.function->0).parameters, inst);
+        if l.block is Some { ms_blocks_push((l.function->0).blocks, push_block(l, inst).block->0); }
+        ms_functions_push(m.functions, dr::FunctionV { end: Some(inst), ..l.function->0 });
+    }
+    Seq::<dr::Instruction>::empty().to_multiset_ensures();
+    assert(Seq::<dr::Instruction>::empty().to_multiset() =~= Multiset::empty());
+    assert(ms_blocks(Seq::<dr::BlockV>::empty()) =~= Multiset::empty());
+}
+pub proof fn step_adds_Label(l: LoaderV, inst: dr::Instruction)
+    requires wf_v(l), step_spec(l, inst).1 is Continue, kind_of(inst.class.opcode) is Label,
+        kind_of(inst.class.opcode) is MemoryModel ==> l.module.memory_model is None,
+    ensures ms_loader(step_spec(l, inst).0) =~= ms_loader(l).insert(inst),
+{
+    let l2 = step_spec(l, inst).0;
+    let m = l.module;
+    ms_push(m.capabilities, inst); ms_push(m.extensions, inst); ms_push(m.ext_inst_imports, inst);
+    ms_push(m.entry_points, inst); ms_push(m.execution_modes, inst); ms_push(m.debug_string_source, inst);
+    ms_push(m.debug_names, inst); ms_push(m.debug_module_processed, inst); ms_push(m.annotations, inst);
+    ms_push(m.types_global_values, inst);
+    if l.block is Some { ms_push((l.block->0).instructions, inst); }
+    if l.function is Some {
+        ms_push((l.function->0).parameters, inst);
+        if l.block is Some { ms_blocks_push((l.function->0).blocks, push_block(l, inst).block->0); }
+        ms_functions_push(m.functions, dr::FunctionV { end: Some(inst), ..l.function->0 });
+    }
+    Seq::<dr::Instruction>::empty().to_multiset_ensures();
+    assert(Seq::<dr::Instruction>::empty().to_multiset() =~= Multiset::empty());
+    assert(ms_blocks(Seq::<dr::BlockV>::empty()) =~= Multiset::empty());
+}
+pub proof fn step_adds_Terminator(l: LoaderV, inst: dr::Instruction)
+    requires wf_v(l), step_spec(l, inst).1 is Continue, kind_of(inst.class.opcode) is Terminator,
+        kind_of(inst.class.opcode) is MemoryModel ==> l.module.memory_model is None,
+    ensures ms_loader(step_spec(l, inst).0) =~= ms_loader(l).insert(inst),
+{
+    let l2 = step_spec(l, inst).0;
+    let m = l.module;
+    ms_push(m.capabilities, inst); ms_push(m.extensions, inst); ms_push(m.ext_inst_imports, inst);
+    ms_push(m.entry_points, inst); ms_push(m.execution_modes, inst); ms_push(m.debug_string_source, inst);
+    ms_push(m.debug_names, inst); ms_push(m.debug_module_processed, inst); ms_push(m.annotations, inst);
+    ms_push(m.types_global_values, inst);
+    if l.block is Some { ms_push((l.block->0).instructions, inst); }
+    if l.function is Some {
+        ms_push((l.function->0).parameters, inst);
+        if l.block is Some { ms_blocks_push((l.function->0).blocks, push_block(l, inst).block->0); }
+        ms_functions_push(m.functions, dr::FunctionV { end: Some(inst), ..l.function->0 });
+    }
+    Seq::<dr::Instruction>::empty().to_multiset_ensures();
+    assert(Seq::<dr::Instruction>::empty().to_multiset() =~= Multiset::empty());
+    assert(ms_blocks(Seq::<dr::BlockV>::empty()) =~= Multiset::empty());
+}
+pub proof fn step_adds_Other(l: LoaderV, inst: dr::Instruction)
+    requires wf_v(l), step_spec(l, inst).1 is Continue, kind_of(inst.class.opcode) is Other,
+        kind_of(inst.class.opcode) is MemoryModel ==> l.module.memory_model is None,
+    ensures ms_loader(step_spec(l, inst).0) =~= ms_loader(l).insert(inst),
+{
+    let l2 = step_spec(l, inst).0;
+    let m = l.module;
+    ms_push(m.capabilities, inst); ms_push(m.extensions, inst); ms_push(m.ext_inst_imports, inst);
+    ms_push(m.entry_points, inst); ms_push(m.execution_modes, inst); ms_push(m.debug_string_source, inst);
+    ms_push(m.debug_names, inst); ms_push(m.debug_module_processed, inst); ms_push(m.annotations, inst);
+    ms_push(m.types_global_values, inst);
+    if l.block is Some { ms_push((l.block->0).instructions, inst); }
+    if l.function is Some {
+        ms_push((l.function->0).parameters, inst);
+        if l.block is Some { ms_blocks_push((l.function->0).blocks, push_block(l, inst).block->0); }
+        ms_functions_push(m.functions, dr::FunctionV { end: Some(inst), ..l.function->0 });
+    }
+    Seq::<dr::Instruction>::empty().to_multiset_ensures();
+    assert(Seq::<dr::Instruction>::empty().to_multiset() =~= Multiset::empty());
+    assert(ms_blocks(Seq::<dr::BlockV>::empty()) =~= Multiset::empty());
+}
+pub proof fn step_adds_exactly_inst(l: LoaderV, inst: dr::Instruction)
+    requires wf_v(l), step_spec(l, inst).1 is Continue,
+        kind_of(inst.class.opcode) is MemoryModel ==> l.module.memory_model is None,
+    ensures ms_loader(step_spec(l, inst).0) =~= ms_loader(l).insert(inst),
+{
+    match kind_of(inst.class.opcode) {
+        Kind::Capability => step_adds_Capability(l, inst),
+        Kind::Extension => step_adds_Extension(l, inst),
+        Kind::ExtInstImport => step_adds_ExtInstImport(l, inst),
+        Kind::MemoryModel => step_adds_MemoryModel(l, inst),
+        Kind::EntryPoint => step_adds_EntryPoint(l, inst),
+        Kind::ExecutionMode => step_adds_ExecutionMode(l, inst),
+        Kind::DebugStringSource => step_adds_DebugStringSource(l, inst),
+        Kind::DebugName => step_adds_DebugName(l, inst),
+        Kind::ModuleProcessed => step_adds_ModuleProcessed(l, inst),
+        Kind::LocDebug => step_adds_LocDebug(l, inst),
+        Kind::Annotation => step_adds_Annotation(l, inst),
+        Kind::TypeOrConst => step_adds_TypeOrConst(l, inst),
+        Kind::Variable => step_adds_Variable(l, inst),
+        Kind::Undef => step_adds_Undef(l, inst),
+        Kind::Function => step_adds_Function(l, inst),
+        Kind::FunctionEnd => step_adds_FunctionEnd(l, inst),
+        Kind::FunctionParameter => step_adds_FunctionParameter(l, inst),
+        Kind::Label => step_adds_Label(l, inst),
+        Kind::Terminator => step_adds_Terminator(l, inst),
+        Kind::Other => step_adds_Other(l, inst),
+    }
+}
+// the order inside every module-level section is preserved: a step only ever appends at the end
+pub open spec fn is_prefix(a: Seq<dr::Instruction>, b: Seq<dr::Instruction>) -> bool {
+    a.len() <= b.len() && forall|i: int| 0 <= i < a.len() ==> #[trigger] b[i] == a[i]
+}
+pub proof fn step_appends(l: LoaderV, inst: dr::Instruction)
+    requires wf_v(l),
+    ensures ({ let m = l.module; let m2 = step_spec(l, inst).0.module;
+        is_prefix(m.capabilities, m2.capabilities) && is_prefix(m.extensions, m2.extensions) && is_prefix(m.ext_inst_imports, m2.ext_inst_imports)
+        && is_prefix(m.entry_points, m2.entry_points) && is_prefix(m.execution_modes, m2.execution_modes)
+        && is_prefix(m.debug_string_source, m2.debug_string_source) && is_prefix(m.debug_names, m2.debug_names)
+        && is_prefix(m.debug_module_processed, m2.debug_module_processed) && is_prefix(m.annotations, m2.annotations)
+        && is_prefix(m.types_global_values, m2.types_global_values)
+        && m.functions.len() <= m2.functions.len() && (forall|k: int| 0 <= k < m.functions.len() ==> #[trigger] m2.functions[k] == m.functions[k])
+        && (l.block matches Some(b) ==> (step_spec(l, inst).0.block matches Some(b2) ==> is_prefix(b.instructions, b2.instructions))) }),
+{}
+"""
+
+
 def build(tier="quick", must_fail=False):
     g = Gen(NAME if not must_fail else NAME + "_mustfail")
     src = Source.get(FILE)
@@ -376,6 +885,7 @@ def build(tier="quick", must_fail=False):
     g.raw("}")
     if not must_fail:
         g.raw(LEMMAS)
+        g.raw(C01_LEMMAS)
     g.raw("} // mod loader")
     g.raw("} // mod dr")
     g.raw("} // verus!")
